@@ -126,6 +126,7 @@ fn case(rng: &mut Rng, pool: &Pool, rep: &mut Report, case_no: u64) {
     let mut problems: Vec<(String, String)> = Vec::new();
     let rounds = rng.range(1, 3);
     let mut history = Vec::new();
+    let mut faulted_base: Option<(Vec<u32>, usize)> = None;
     for round in 1..=rounds {
         let before = snapshot(&world);
         // the inherent method, or the same through the `RunNow` impl of the dispatcher (how a
@@ -151,12 +152,17 @@ fn case(rng: &mut Rng, pool: &Pool, rep: &mut Report, case_no: u64) {
             break;
         }
         let after = snapshot(&world);
-        for (u, what) in &uids {
+        for (k, (u, what)) in uids.iter().enumerate() {
             let n = ctx.setups[*u as usize].load(SeqCst);
-            if n != round as u32 {
+            // (after a setup call that was cut short by a panicking hook the counters were re-based)
+            let want = match &faulted_base {
+                Some((base, at_round)) => base[k] + (round - at_round) as u32,
+                None => round as u32,
+            };
+            if n != want {
                 problems.push((
-                    if n < round as u32 { "setup_missed".into() } else { "setup_repeated".into() },
-                    format!("after {} setup call(s) the {} u{} has been set up {} times", round, what, u, n),
+                    if n < want { "setup_missed".into() } else { "setup_repeated".into() },
+                    format!("after {} complete setup call(s){} the {} u{} has been set up {} times, {} expected", round, if faulted_base.is_some() { " (and one that a panicking hook cut short)" } else { "" }, what, u, n, want),
                 ));
             }
         }
@@ -211,6 +217,30 @@ fn case(rng: &mut Rng, pool: &Pool, rep: &mut Report, case_no: u64) {
                 rep.metric("dispatches_that_panicked_between_setups", 1);
             }
             history.push(format!("dispatch{} ({})", if seq { "_seq + thread-local" } else { "" }, if r.is_err() { "panicked, caught" } else { "completed" }));
+        }
+        // a setup call in which one system's own setup hook panics (the caller catches it, repairs
+        // nothing, and goes on): it is not counted as a round - but nothing is lost by it: the next
+        // setup call and dispose still reach every system
+        if round < rounds && rng.chance(1, 6) {
+            let dyn_uids: Vec<u32> = {
+                let mut v = Vec::new();
+                plan.walk(&mut |it, _| match it {
+                    Item::Sys(s) if s.kind == Kind::Dyn => v.push(s.uid),
+                    Item::Tl(t) => v.push(t.uid),
+                    _ => {}
+                });
+                v
+            };
+            if !dyn_uids.is_empty() {
+                let v = dyn_uids[rng.below(dyn_uids.len())];
+                ctx.inject[v as usize].store(INJ_PANIC_SETUP, SeqCst);
+                let r = catch_unwind(AssertUnwindSafe(|| disp.setup(&mut world)));
+                ctx.inject[v as usize].store(INJ_NONE, SeqCst);
+                history.push(format!("setup in which the setup hook of u{} panics ({})", v, if r.is_err() { "caught" } else { "no panic surfaced" }));
+                // whatever that call reached, it reached: counters are re-based
+                faulted_base = Some((uids.iter().map(|(u, _)| ctx.setups[*u as usize].load(SeqCst)).collect(), round));
+                rep.metric("setup_calls_with_a_panicking_hook", 1);
+            }
         }
         // interleave inserts / removes between setup rounds
         if round < rounds {
@@ -324,9 +354,51 @@ fn case_async(rng: &mut Rng, pool: &Pool, rep: &mut Report, case_no: u64) {
             break;
         }
     }
+    // a setup call in which one system's own setup hook panics (caught), then setup again: the
+    // second call reaches every system, ordinary ones included
+    let faulted = rng.chance(1, 4);
+    if faulted {
+        let cands: Vec<u32> = {
+            let mut v = Vec::new();
+            plan.walk(&mut |it, d| match it {
+                Item::Sys(s) if s.kind == Kind::Dyn && d == 0 => v.push(s.uid),
+                Item::Tl(t) if d == 0 => v.push(t.uid),
+                _ => {}
+            });
+            v
+        };
+        if let Some(&v) = cands.get(rng.below(cands.len().max(1))) {
+            ctx.inject[v as usize].store(INJ_PANIC_SETUP, SeqCst);
+            let r = catch_unwind(AssertUnwindSafe(|| ad.setup()));
+            ctx.inject[v as usize].store(INJ_NONE, SeqCst);
+            rep.metric("async_setup_calls_with_a_panicking_hook", 1);
+            let uids = all_uids(&plan);
+            let base: Vec<u32> = uids.iter().map(|(u, _)| ctx.setups[*u as usize].load(SeqCst)).collect();
+            match catch_unwind(AssertUnwindSafe(|| ad.setup())) {
+                Err(p) => {
+                    rep.violation("setup_panicked", &format!("AsyncDispatcher::setup after a setup call in which a hook had panicked ({}) panicked: {}", if r.is_err() { "caught" } else { "not surfaced" }, payload_str(&*p)), case_no, J::obj().set("plan", plan.to_json()));
+                    return;
+                }
+                Ok(()) => {
+                    for (k, (u, what)) in uids.iter().enumerate() {
+                        let n = ctx.setups[*u as usize].load(SeqCst);
+                        if n != base[k] + 1 {
+                            rep.violation(
+                                if n < base[k] + 1 { "setup_missed" } else { "setup_repeated" },
+                                &format!("AsyncDispatcher: the setup hook of u{} panicked during one setup call (caught); the next setup call reached the {} u{} {} times", v, what, u, n - base[k]),
+                                case_no,
+                                J::obj().set("plan", plan.to_json()),
+                            );
+                            return;
+                        }
+                    }
+                }
+            }
+        }
+    }
     // setup while a dispatch is in flight (one system is parked inside run; a helper lets it go
     // once this thread is about to block): it waits for the dispatch and then reaches everything
-    let in_flight = rng.chance(1, 3);
+    let in_flight = !faulted && rng.chance(1, 3);
     if in_flight {
         use crate::props::c15::Latch;
         use std::sync::atomic::AtomicBool;
@@ -382,7 +454,7 @@ fn case_async(rng: &mut Rng, pool: &Pool, rep: &mut Report, case_no: u64) {
     }
     // the dispatcher is used (every resource exists now), a thread-local system may panic in
     // `wait` - the caller catches it - and setup is called again: it still reaches everything
-    if !in_flight && rng.chance(1, 2) {
+    if !in_flight && !faulted && rng.chance(1, 2) {
         for s in Slot::all() {
             if !ad.world().has_value_raw(s.rid()) {
                 insert_slot(ad.world_mut(), s, 0xfeed_1000 + s.0 as u64);
